@@ -655,5 +655,56 @@ Qed.
 Lemma kcore_cut s : kcore (fq_cut s) = kcore s /\ st_up (fq_cut s) = false /\ fb_sess (fq_cut s) = fb_sess s.
 Proof.
   unfold fq_cut, kcore, set_queue. destruct (st_up s) eqn:Hup; [|auto]. sfields.
-  destruct (a_peer s) as [p|] eqn:Hp; sfields; auto.
+  destruct (a_peer s) as [p|] eqn:Hp; sfields; rewrite ?Hp; auto.
 Qed.
+
+Lemma eq_set_closed_same q : eq_set_closed (evq_closed q) q = q.
+Proof. destruct q; reflexivity. Qed.
+
+Definition matched (s : fstate) : bool :=
+  match a_peer s, fb_sess s with
+  | Some p, Some se => fs_id se =? p_sid p
+  | _, _ => false
+  end.
+
+Definition is_some {A} (o : option A) : bool := match o with Some _ => true | None => false end.
+
+(* the state of the known-finding scan that corresponds to a model state *)
+Definition kof (s : fstate) : kst :=
+  {| k_apeer := is_some (a_peer s); k_bpeer := fb_peer s; k_match := matched s |}.
+
+Lemma kof_kcore s s' : kcore s = kcore s' -> kof s = kof s'.
+Proof.
+  unfold kcore, kof, matched. intros H. injection H as H1 H2 H3 H4.
+  destruct (a_peer s) as [p|], (a_peer s') as [p'|]; try discriminate; cbn [option_map is_some] in *;
+    destruct (fb_sess s) as [se|], (fb_sess s') as [se'|]; try discriminate; cbn [option_map] in *; try congruence.
+Qed.
+
+(* the part of the handshake after B has answered and A has (if told so) rebuilt its queue *)
+Lemma INV_hello_tail (fail_open : bool) s p se :
+  INV s -> st_up s = false -> a_peer s = Some p -> fb_sess s = Some se -> (fs_id se =? p_sid p) = true ->
+  let s3 := set_queue (eq_set_read (fs_next se) (p_q p)) s in
+  let s4 := if fail_open then s3
+            else match a_peer s3 with
+                 | Some p3 => set_stream true [] [] (set_queue (eq_set_closed false (p_q p3)) s3)
+                 | None => s3
+                 end in
+  INV s4 /\ kcore s4 = kcore s.
+Proof.
+  intros H Hup Hp Hse Hid. cbv zeta. destruct fail_open.
+  - split.
+    + apply INV_core with (s := set_stream false [] [] (set_queue (eq_set_closed (evq_closed (p_q p)) (eq_set_read (fs_next se) (p_q p))) s)).
+      * destruct H as (_ & _ & _ & _ & Hdown & _). destruct (Hdown Hup) as [Hc0 Hs0].
+        rewrite !(set_queue_some _ _ p Hp). unfold core. sfields. rewrite Hup, Hc0, Hs0.
+        replace (evq_closed (p_q p)) with (evq_closed (eq_set_read (fs_next se) (p_q p))) by reflexivity.
+        now rewrite eq_set_closed_same.
+      * now apply INV_resume.
+    + rewrite (set_queue_some _ _ p Hp). unfold kcore. sfields. now rewrite Hp.
+  - rewrite (set_queue_some _ _ p Hp). sfields. unfold set_queue. sfields. split.
+    + pose proof (INV_resume s p se true false H Hup Hp Hse Hid) as H'.
+      rewrite (set_queue_some _ _ p Hp) in H'. exact H'.
+    + unfold kcore. sfields. now rewrite Hp.
+Qed.
+
+Lemma fed_op_core s o : core (fed_op s o) = core s /\ fb_ret (fed_op s o) = fb_ret s /\ published (fed_op s o) = published s.
+Proof. unfold fed_op, core. sfields. auto. Qed.
